@@ -43,10 +43,17 @@ type ilvSpec struct {
 // ilvPayload: first byte names the writer (so that a 1-byte payload is attributable), then a pattern
 // that depends on writer and call number.
 func ilvPayload(w, k, n int) []byte {
+	key := [3]int{w, k, n}
+	if v, ok := ilvPayloads.Load(key); ok {
+		return v.([]byte)
+	}
 	b := pattern(w*131+k*17+3, n)
 	b[0] = byte(0xA0 + w)
+	ilvPayloads.Store(key, b)
 	return b
 }
+
+var ilvPayloads sync.Map // read-only once made
 
 const (
 	ilvNew = iota
